@@ -201,7 +201,7 @@ def oracle(case, obs):
 
 
 def scale_suffix(doc, obs) -> str:
-    """names the class of the open finding C05/well-formed-rejected-small-scale: 'Not all flip modules have a STOG'
+    """names the class of the finding C05/well-formed-rejected-small-scale (repaired by 6ca12a9): 'Not all flip modules have a STOG'
     on a document whose smallest dimension is so far below its coordinates that the distance tolerance derived from
     it (1e-12 times that dimension) is absorbed when added to a coordinate"""
     if "Not all flip modules have a STOG" not in obs.get("msg", ""):
